@@ -41,7 +41,17 @@ fn reference_verdict(d: &Delivery) -> Result<(), String> {
 pub fn judge(d: &Delivery) -> (Option<String>, &'static str) {
     let r = match guarded(|| dl::execute_dyn(d)) {
         Ok(r) => r,
-        Err(_) => return (None, "unwind"),
+        // a decoder that unwinds has neither accepted nor "rejected with an error" (C03 reports the unwind
+        // as such; here it is the missing verdict that counts)
+        Err(u) => {
+            let what = match d.target {
+                Target::Pk => "PublicKey",
+                Target::Sk => "SecretKey",
+                Target::Sig => "Signature",
+                Target::Verify => return (None, "unwind"),
+            };
+            return (Some(format!("{}{}::from_bytes unwinds instead of returning a verdict ({})", what, d.n, u.signature())), "unwind");
+        }
     };
     let refv = reference_verdict(d);
     match (r, refv) {
@@ -228,7 +238,7 @@ pub fn check(tier: Tier, seed: u64) -> i32 {
     rep.rule = "a case is one byte string delivered to PublicKey/SecretKey/Signature::from_bytes of either variant, produced by the seeded channel/disk fault catalogue (bit flips incl. header bits, overwrites, truncation/extension, splices, torn writes, misdelivery across variants and object types) or the Byzantine key encoder Z3 from pristine encodings; non-trivial = right length and header for the receiving decoder, so that the verdict is decided at field level; distinct = distinct delivered bytes".to_string() + &report::distinct_rule_suffix();
     rep.assumptions = vec![
         "the strict reference decoders (sim/src/reference/codec.rs) encode the formats of specification sections 3.11.2/3.11.3/3.11.5 with this library's signature header label".into(),
-        "a delivery on which the node unwinds is not judged here (C03 reports it)".into(),
+        "a decoder that unwinds has given no verdict: reported here as well as by C03".into(),
     ];
     rep.components = json!({
         "real": ["PublicKey::from_bytes/to_bytes", "SecretKey::from_bytes/to_bytes", "Signature::from_bytes/to_bytes", "keygen+sign (pristine material)"],
